@@ -1,6 +1,7 @@
 package handlers
 
 import (
+	"net"
 	"context"
 	//"encoding/hex"
 	"io"
@@ -102,7 +103,11 @@ func (h *HTTP) request(ctx *gin.Context) {
 	if h.Config.BehindRedir {
 		ExternalIP = ctx.Request.Header.Get("X-Forwarded-For")
 	} else {
-		ExternalIP = strings.Split(ctx.Request.RemoteAddr, ":")[0]
+		if host, _, err := net.SplitHostPort(ctx.Request.RemoteAddr); err == nil {
+			ExternalIP = host
+		} else {
+			ExternalIP = ctx.Request.RemoteAddr
+		}
 	}
 
 	/*
